@@ -279,7 +279,7 @@ class World:
         """The current class's share of the shard budget is spent."""
         import time
 
-        return self.ctx.out_of_time() or time.time() > self.deadline
+        return time.time() > self.deadline
 
     # ---- secp256k1 points by the reference arithmetic (small pool, ~9 ms each)
     @property
@@ -907,7 +907,7 @@ def run_layout_class(ctx: Ctx, w: World, key: str, budget_s: float, rounds: int)
         cls = type(cls.__name__ + "Probe", (cls,), {"command": "probe"})
     d = ClassDriver(w, key, cls)
     make = MAKERS[key]
-    t_end = time.time() + budget_s
+    t_end = time.time() + max(3.0, budget_s)     # every class is served a little even when the shard is late
     dirs = directives(layout)
     quick = ctx.tier == "quick"
     if quick and len(dirs) > 90:
@@ -919,7 +919,7 @@ def run_layout_class(ctx: Ctx, w: World, key: str, budget_s: float, rounds: int)
         todo = [None]
     cap = 40 if quick else 120
     for it, dr in enumerate(todo):
-        if ctx.out_of_time() or time.time() > t_end:
+        if time.time() > t_end:
             ctx.notes.append(f"{key}: class budget reached after {it}/{len(todo)} values")
             break
         v = rand_values(w, layout)
@@ -1089,8 +1089,6 @@ def run_block_filter(ctx: Ctx, w: World, rounds: int) -> None:
 
 
 def run_bip21(ctx: Ctx, w: World, rounds: int) -> None:
-    from decimal import Decimal
-
     from ..ref import base58 as r58
 
     key = "bip21.Bip21"
@@ -1119,7 +1117,6 @@ def run_bip21(ctx: Ctx, w: World, rounds: int) -> None:
                 o = outcome(d.parse, variant, True)
                 if o[0] == "ok" and o[1].serialize() != variant:
                     ctx.stat("bip21:lenient-text-not-reproduced")
-    del Decimal
 
 
 def run_network(ctx: Ctx, w: World) -> None:
@@ -1231,31 +1228,23 @@ def shard_group(ctx: Ctx) -> None:
     group, part = ctx.params["group"], ctx.params["part"]
     keys = GROUPS[group]
     quick = ctx.tier == "quick"
-    total = float(ctx.params.get("_budget_s", 60))
-    reserve = 0.0
     if group == "tx":
         run_vendored_txs(ctx, w, part, 2 if quick else 3)
-        reserve = ctx.time_left()
     elif group == "block":
         run_vendored_blocks(ctx, w)
-    left = max(5.0, ctx.time_left())
-    per = left / max(1, len(keys))
-    for key in keys:
-        if ctx.out_of_time():
-            ctx.notes.append(f"{group}: out of budget before {key}")
-            break
+    import time
+
+    for n_done, key in enumerate(keys):
+        per = max(3.0, ctx.time_left() / (len(keys) - n_done))
         rounds = (150 if quick else 3000)
         if key in CUSTOM_RUNNERS:
-            import time
-
             w.deadline = time.time() + per
             CUSTOM_RUNNERS[key](ctx, w, rounds)
             w.deadline = float("inf")
         elif key == "network.Network":
             run_network(ctx, w)
         else:
-            run_layout_class(ctx, w, key, per * (2.0 if key in ("tx.Tx", "block.Block", "compact_blocks.CmpctBlock") else 1.0), rounds)
-    del reserve, total
+            run_layout_class(ctx, w, key, per, rounds)
     reach.stop()
     reach.report(ctx)
 
@@ -1890,10 +1879,10 @@ def _classify_lost(scope: str, key: bytes, value: bytes, map_pairs) -> str:
         return "dropped-beside-final-script"
     if scope == "global" and key == b"\xfb" and value == bytes(4):
         return "explicit-version-0"
-    if kt in whole and len(key) > 1:
-        return "keydata-on-whole-value-key"
     if value == b"":
         return "empty-value"
+    if kt in whole and len(key) > 1:
+        return "keydata-on-whole-value-key"
     if scope == "in" and key == b"\x08" and value == b"\x00":
         return "empty-final-witness"
     if scope == "in" and key == b"\x03" and value == bytes(4):
@@ -2078,14 +2067,15 @@ def shard_psbt_vectors(ctx: Ctx) -> None:
     reach = start_reach()
     part, parts = ctx.params["part"], ctx.params["parts"]
     corpus = vendored_psbts()
-    for i, (fn, b) in enumerate(corpus):
-        if i % parts != part:
-            continue
-        if ctx.out_of_time():
-            ctx.notes.append(f"psbt-vec: budget reached at vector {i}/{len(corpus)}")
-            break
-        ctx.case("vendored:psbt", ("vp", b), sample={"file": fn, "psbt": b})
-        psbt_full(ctx, w, b, f"vendored:{fn}", mutate=True, cap=160 if ctx.tier == "quick" else 600)
+    for rnd in range(1 if ctx.tier == "quick" else 10):       # later passes draw other mutants of the same vectors
+        for i, (fn, b) in enumerate(corpus):
+            if i % parts != part:
+                continue
+            if ctx.out_of_time():
+                ctx.notes.append(f"psbt-vec: budget reached in pass {rnd} at vector {i}/{len(corpus)}")
+                break
+            ctx.case("vendored:psbt", ("vp", b), sample={"file": fn, "psbt": b})
+            psbt_full(ctx, w, b, f"vendored:{fn}", mutate=True, cap=160 if ctx.tier == "quick" else 600)
     reach.stop()
     reach.report(ctx)
 
